@@ -1,9 +1,10 @@
-\* user contract + system contract 0x1, two slots, values {0,1}, <= 3 blocks, diffs of <= 2 entries
+\* user contract + system contract 0x1, two slots, values {0,1,2}, <= 3 blocks, diffs of <= 2 entries
+\* measured: 20 176 distinct states, ~10 s on 4 workers
 CONSTANTS
   Users = {"c1"}
   Sys = {"sys1"}
   Slots = {"s1", "s2"}
-  MaxV = 1
+  MaxV = 2
   Cairo0 = {"k0"}
   Sierra = {}
   TxIds = {}
